@@ -17,7 +17,7 @@ RULE = ("split_sync: all 65536 int16 words (exhaustive) in natural, shuffled, co
         "step amplitudes and analog thresholding. Non-trivial: a train with >= 3 events on >= 2 lines; distinct = distinct "
         "(layout | file kind, line subset, slice, dtype) signature")
 ASSUMPTIONS = ["one digital sync word per sample (as in every fixture); 0/1 trains are given as signed or floating arrays"]
-REQUIRED = {"words_checked": 65536, "read_sync_checked": 10, "fronts_checked": 100, "fronts_2d_checked": 100, "strided_sync_checked": 20, "nidq_partial_checked": 8, "analog_lines_checked": 4}
+REQUIRED = {"words_checked": 65536, "read_sync_checked": 10, "fronts_checked": 100, "fronts_2d_checked": 100, "strided_sync_checked": 20, "nidq_partial_checked": 8, "analog_lines_checked": 4, "sync_routes_checked": 30}
 CASE_TIMEOUT = 120.0
 EXHAUSTIVE = "split_sync over all 65536 words x 16 bits"
 
@@ -64,6 +64,35 @@ def check_fronts_line(res, U, x, pos, pol, label):
         res.check(np.array_equal(f, pos[pol < 0]), "falls:1d", f"{label}: falls {f[:8].tolist()} expected {pos[pol < 0][:8].tolist()}")
     except Exception as e:
         res.exception("fronts:exception", e, label)
+
+
+def check_routes(res, spikeglx, sr, E, rng, ns, label, min_low=None):
+    """every documented way of asking for the sync lines of a window gives the written lines of that window: read(sync=True), read_samples and
+    the module-level spikeglx.read(file, first, last) (digital lines first, thresholded analog lines after them)"""
+    a0 = int(rng.integers(0, ns // 4))
+    b0 = int(rng.integers(3 * ns // 4, ns + 1))
+    for (f, l) in ((0, ns), (a0, b0)):
+        exp = E[f:l]
+        if min_low is not None and not all(np.mean(min_low[f:l, j] == 0) >= 0.15 for j in range(min_low.shape[1])):
+            continue
+        routes = {"read(sync=True)": lambda: sr.read(nsel=slice(f, l), sync=True)[:2],
+                  "read_samples": lambda: sr.read_samples(first_sample=f, last_sample=l)[:2],
+                  "spikeglx.read": lambda: spikeglx.read(sr.file_bin, first_sample=f, last_sample=l)[:2]}
+        ref = sr.read(nsel=slice(f, l), sync=False)
+        with spikeglx.Reader(sr.file_bin) as sr0:       # the module-level function opens the file with the default options
+            ref0 = sr0.read(nsel=slice(f, l), sync=False)
+        for name, fn in routes.items():
+            try:
+                d, sy = fn()
+            except Exception as e:
+                res.exception(f"sync-route:{name}:exception", e, f"{label} window {f}:{l}")
+                continue
+            res.check(sy.shape == exp.shape and np.array_equal(sy, exp), f"sync-route:{name}",
+                      lambda: f"{label} window {f}:{l}: sync returned by {name} has shape {sy.shape}, written lines {exp.shape}; "
+                              f"{int((sy != exp).sum()) if sy.shape == exp.shape else '?'} samples differ", counter="sync_routes_checked")
+            ref_ = ref0 if name == "spikeglx.read" else ref
+            res.check(d.shape == ref_.shape and np.array_equal(d, ref_), f"sync-route:{name}:data",
+                      lambda: f"{label} window {f}:{l}: data returned by {name} differ from read(sync=False) (shape {d.shape} vs {ref.shape})")
 
 
 def run_case(case):
@@ -152,6 +181,7 @@ def run_case(case):
                 res.check(sy2.shape == exp.shape and np.array_equal(sy2, exp) and dat.shape[0] == exp.shape[0],
                           f"read:sync=True:strided:{kcont}:{'reversed' if sl.step < 0 else 'forward'}",
                           f"{kind} {kcont} read({sl}, sync=True): sync part {sy2.shape} / data {dat.shape}, expected {exp.shape[0]} rows equal to the written lines")
+            check_routes(res, spikeglx, sr, T, rng, ns, f"{kind} {'cbin' if use_c else 'bin'}")
             full = sr.read_sync(slice(0, ns))
             for ln in range(16):
                 pos, pol = ev.get(ln, (np.array([], int), np.array([], int)))
@@ -278,6 +308,7 @@ def run_case(case):
                         if np.mean(exp[:, 16 + j] == 0) >= 0.15:
                             res.check(np.array_equal(sy[:, 16 + j], exp[:, 16 + j]), "read_sync:nidq-partial-analog",
                                       f"nidq read_sync({sl}): thresholded analog line {j} differs at {int((sy[:, 16 + j] != exp[:, 16 + j]).sum())} samples")
+            check_routes(res, spikeglx, sr, np.c_[T, A], rng, ns, f"nidq xa={xa}", min_low=A)
             full = sr.read_sync(slice(0, ns))
             for ln in range(full.shape[1]):
                 pos, pol = ev.get(ln, (np.array([], int), np.array([], int)))
